@@ -7,7 +7,8 @@
 //   name <i> <hex>
 //   rule <k> sig=<n> obs=<0|1> req=a,b single=c follow=d br=<slot>:<a,b>:<c,d> disc=e     (takes effect at the next engine instance)
 //   set <k> <n>                      external state
-//   db <0|1>                         following engine instances attach a SQLite database in <workdir>/build.db (default 0)
+//   db <0|1|2>                       following engine instances attach a SQLite database in <workdir>/build.db (default 0; 1 removes an
+//                                    existing file first, 2 keeps it);  recreate <0|1>: recreateUnmatchedVersion flag (default 1)
 //   schema <n>                       client schema version used when attaching (default 1)
 //   restart                          new engine instance (over the same database when db=1)
 //   build <k> [sched=sync|defer:<seed>|mixed:<seed>|threads:<seed>] [cancel=iter:<n>|cb:<n>|thread:<us>]
@@ -25,6 +26,7 @@
 #include <algorithm>
 #include <unistd.h>
 #include <cstdarg>
+#include <sqlite3.h>
 using namespace llbuild;
 using namespace llbuild::core;
 
@@ -196,16 +198,48 @@ static void dump_deps(BuildEngine* e, const std::string& wd) {
   for (int a : order) ev("deps %d%s", a, dl[a].c_str());
 }
 
+// independent read of the database file through a second connection (what a later process would see)
+static void dump_db(const std::string& dbpath) {
+  sqlite3* db = nullptr;
+  if (sqlite3_open_v2(dbpath.c_str(), &db, SQLITE_OPEN_READONLY, nullptr) != SQLITE_OK) { printf("dberror open\n"); if (db) sqlite3_close(db); return; }
+  std::map<long long, std::string> names; sqlite3_stmt* st = nullptr;
+  if (sqlite3_prepare_v2(db, "SELECT id, key FROM key_names", -1, &st, nullptr) == SQLITE_OK) {
+    while (sqlite3_step(st) == SQLITE_ROW) names[sqlite3_column_int64(st, 0)] = std::string((const char*)sqlite3_column_blob(st, 1), sqlite3_column_bytes(st, 1));
+  }
+  sqlite3_finalize(st);
+  std::vector<std::string> rows;
+  if (sqlite3_prepare_v2(db, "SELECT key_id, value, signature, built_at, computed_at, dependencies FROM rule_results", -1, &st, nullptr) == SQLITE_OK) {
+    while (sqlite3_step(st) == SQLITE_ROW) {
+      long long id = sqlite3_column_int64(st, 0);
+      ValueType v((const uint8_t*)sqlite3_column_blob(st, 1), (const uint8_t*)sqlite3_column_blob(st, 1) + sqlite3_column_bytes(st, 1));
+      const uint8_t* d = (const uint8_t*)sqlite3_column_blob(st, 5); int n = sqlite3_column_bytes(st, 5);
+      char buf[256]; snprintf(buf, sizeof buf, "dbrow %08d %s %llu %lld %lld", kid(names[id]), vs(v).c_str(),
+                              (unsigned long long)sqlite3_column_int64(st, 2), (long long)sqlite3_column_int64(st, 4), (long long)sqlite3_column_int64(st, 3));
+      std::string r = buf;
+      for (int i = 0; i + 8 <= n; i += 8) { uint64_t x = 0; for (int j = 0; j < 8; j++) x |= uint64_t(d[i + j]) << (8 * j);
+        r += " " + (names.count(x >> 2) ? std::to_string(kid(names[x >> 2])) : std::string("?")) + ":" + std::to_string(x & 3); }
+      if (n % 8) r += " TRAILING-BYTES";
+      rows.push_back(r);
+    }
+  }
+  sqlite3_finalize(st);
+  std::sort(rows.begin(), rows.end());
+  for (auto& r : rows) { int k = atoi(r.c_str() + 6); printf("dbrow %d%s\n", k, r.c_str() + 14); }
+  if (sqlite3_prepare_v2(db, "SELECT iteration FROM info", -1, &st, nullptr) == SQLITE_OK && sqlite3_step(st) == SQLITE_ROW)
+    printf("dbepoch %lld\n", (long long)sqlite3_column_int64(st, 0));
+  sqlite3_finalize(st); sqlite3_close(db);
+}
+
 int main(int argc, char** argv) {
   std::ifstream in(argv[1]); std::string wd = argc > 2 ? argv[2] : "."; std::string dbpath = wd + "/build.db";
-  bool usedb = false; uint32_t schema = 1; int nbuild = 0;
+  bool usedb = false; uint32_t schema = 1; int nbuild = 0; bool recreate = true;
   llbuild_verif_engine_hook = hook;
   Del* del = nullptr; BuildEngine* e = nullptr;
   auto newengine = [&](bool attach) {
     if (e) { delete e; delete del; }
     g_defs = g_pending; del = new Del; e = new BuildEngine(*del); g_engine = e;
     if (attach) {
-      std::string err; auto db = createSQLiteBuildDB(dbpath, schema, /*recreateUnmatchedVersion=*/true, &err);
+      std::string err; auto db = createSQLiteBuildDB(dbpath, schema, /*recreateUnmatchedVersion=*/recreate, &err);
       if (!db) { printf("attach-error %s\n", err.c_str()); return; }
       if (!e->attachDB(std::move(db), &err)) printf("attach-error %s\n", err.c_str());
     }
@@ -227,7 +261,8 @@ int main(int argc, char** argv) {
       g_pending[k] = d;
     }
     else if (t[0] == "set") g_env[atoi(t[1].c_str())] = strtoull(t[2].c_str(), 0, 10);
-    else if (t[0] == "db") { usedb = t[1] == "1"; if (usedb && !started) unlink(dbpath.c_str()); }
+    else if (t[0] == "db") { usedb = t[1] != "0"; if (t[1] == "1" && !started) unlink(dbpath.c_str()); }   // db 2: attach to the existing file
+    else if (t[0] == "recreate") recreate = t[1] == "1";
     else if (t[0] == "schema") schema = atoi(t[1].c_str());
     else if (t[0] == "restart") { newengine(usedb); started = true; printf("restart\n"); }
     else if (t[0] == "fresh") {
@@ -266,6 +301,7 @@ int main(int argc, char** argv) {
       printf("result %s%s\n", res.c_str(), g_cancel_sent ? " cancelled" : "");
       printf("epoch %llu\n", (unsigned long long)e->getCurrentEpoch());
       g_in_build = true; dump_deps(e, wd); g_in_build = false;
+      if (usedb) dump_db(dbpath);
       fflush(stdout);
     }
   }
